@@ -185,6 +185,12 @@ func cmdCheck(args []string) int {
 	cfg := solverCfg(quickT, longT)
 	cfg.Seed = seed
 	results := vc.Discharge(frs, cfg)
+	// second chance for obligations that only timed out (e.g. on a loaded machine): re-run up to 12 of them with a longer
+	// limit before anything is reported
+	retried := vc.Retry(results, cfg, 300, 12)
+	if retried > 0 && *verbose {
+		fmt.Printf("retried %d undecided obligations with a longer time limit\n", retried)
+	}
 	results = append(results, unattached...)
 
 	// bounded stand-ins (never counted as proved)
